@@ -155,6 +155,7 @@ func init() {
 		}
 		src = strings.Join(strings.Fields(c.src("go/store/nbs/table_reader.go", fd.Body)), " ")
 		c.defBool("iterateDiscardsReadFullError", strings.Contains(src, "_, err := io.ReadFull(bufReader, buf[:chunk.length]) chunkData := buf[:chunk.length] cchk, err := NewCompressedChunk("))
+		c.defBool("iterateReturnsReadFullError", strings.Contains(src, "_, err := io.ReadFull(bufReader, buf[:chunk.length]) if err != nil { return err } chunkData := buf[:chunk.length]"))
 		c.defBool("iterateGrowsBuffer", strings.Contains(src, "if uint64(chunk.length) > uint64(len(buf)) { // Records are not bounded by the initial buffer size. buf = make([]byte, chunk.length) }"))
 		c.defBool("iterateBufferIs4MiB", strings.Contains(src, "buf := make([]byte, 4*1024*1024)"))
 		return nil
